@@ -963,7 +963,9 @@ func (e *Engine) builtin(p *Path, fr *Frame, name string, c *ssa.CallCommon, arg
 			set(v.Len)
 		case *Term:
 			if mt, ok := c.Args[0].Type().Underlying().(*types.Map); ok {
-				set(Ite(Eq(v, BVU(0, 64)), BVU(0, 64), st.mapState(v, mt).Card))
+				card := st.mapState(v, mt).Card
+				st.Assume(BVCmp("bvule", card, maxLen)) // A-SIZE: a map holds at most 2^40 entries
+				set(Ite(Eq(v, BVU(0, 64)), BVU(0, 64), card))
 			} else if pt, ok := c.Args[0].Type().Underlying().(*types.Pointer); ok {
 				set(BVU(uint64(pt.Elem().Underlying().(*types.Array).Len()), 64))
 			} else {
